@@ -14,7 +14,9 @@ import (
 	"os"
 	"strconv"
 	"strings"
+	"sync"
 	"testing"
+	"time"
 
 	"github.com/creachadair/jrpc2/channel"
 )
@@ -116,6 +118,8 @@ type framing struct {
 	sep  byte
 }
 
+const mixedMime = "application/X-Mixed+JSON; Charset=UTF-8"
+
 func headerFramings() []framing {
 	return []framing{
 		{"StrictHeader(json)", channel.StrictHeader(jsonMime), "strict", jsonMime, 0},
@@ -123,6 +127,9 @@ func headerFramings() []framing {
 		{"LSP", channel.LSP, "opt", lspMime, 0},
 		{"Header(\"\")", channel.Header(""), "none", jsonMime, 0},
 		{"StrictHeader(\"\")", channel.StrictHeader(""), "none", jsonMime, 0},
+		// a media type spelled with capitals: what the channel itself sends must match what it expects
+		{"StrictHeader(X-Mixed)", channel.StrictHeader(mixedMime), "strict", mixedMime, 0},
+		{"Header(X-Mixed)", channel.Header(mixedMime), "opt", mixedMime, 0},
 	}
 }
 func splitFramings() []framing {
@@ -614,6 +621,11 @@ func TestFrames(t *testing.T) {
 			classes = append(classes, "m1", "m5", "m16")
 		}
 		frs := append(headerFramings(), splitFramings()...)
+		if shard == 0 {
+			for _, fr := range append(frs, framing{"RawJSON", channel.RawJSON, "", "", 0}) {
+				independentChannels(fr, res)
+			}
+		}
 		// all sequences of <= 2 classes, and sampled triples
 		var seqs [][]string
 		for _, a := range classes {
@@ -708,6 +720,63 @@ func rawRoundTrip(recs []string, rng *rand.Rand, res *result) {
 				res.add(violation{"C11", "RawJSON", fmt.Sprintf("%d records, %d bytes", len(recs), len(data)), cuts[:min(12, len(cuts))], eofWith, why})
 				return
 			}
+		}
+	}
+}
+
+// gateWriter blocks every Write on entry (before it has looked at the bytes) until released: a slow connection.
+type gateWriter struct {
+	entered chan struct{}
+	gate    chan struct{}
+	buf     bytes.Buffer
+	once    sync.Once
+}
+
+func (g *gateWriter) Write(p []byte) (int, error) {
+	g.once.Do(func() { close(g.entered) })
+	<-g.gate
+	return g.buf.Write(p)
+}
+func (g *gateWriter) Close() error { return nil }
+
+// independentChannels: two channels made by the same Framing value are used by two goroutines at the same time (two
+// connections of one server, or the two directions of a full-duplex pair): what each transmits is its own record.
+func independentChannels(fr framing, res *result) {
+	recA, recB := []byte(`{"from":"A","pad":"aaaaaaaaaaaaaaaaaaaaaaaaaaaaaaaaaaaaaaaaaaaaaaaa"}`), []byte(`{"from":"B"}`)
+	if fr.name != "RawJSON" { // plain text: legal for every split byte in use
+		recA, recB = []byte("from-A-"+strings.Repeat("a", 60)), []byte("from-B")
+	}
+	wa := &gateWriter{entered: make(chan struct{}), gate: make(chan struct{})}
+	wb := &capWC{}
+	a, b := fr.f(strings.NewReader(""), wa), fr.f(strings.NewReader(""), wb)
+	done := make(chan error, 1)
+	go func() { done <- a.Send(recA) }()
+	select {
+	case <-wa.entered:
+	case err := <-done: // a framing that does not write through (none here)
+		done <- err
+	case <-time.After(10 * time.Second):
+		res.add(violation{"C11", fr.name, "two channels, one framing", nil, false, "Send never reached the writer"})
+		return
+	}
+	errB := b.Send(recB)
+	close(wa.gate)
+	errA := <-done
+	res.Evaluations++
+	if errA != nil || errB != nil {
+		res.add(violation{"C11", fr.name, "two channels, one framing", nil, false, fmt.Sprintf("Send errors: %v, %v", errA, errB)})
+		return
+	}
+	for _, x := range []struct {
+		who  string
+		data []byte
+		want []byte
+	}{{"A", wa.buf.Bytes(), recA}, {"B", wb.buf.Bytes(), recB}} {
+		got, err := fr.f(bytes.NewReader(x.data), nopWC{io.Discard}).Recv()
+		if err != nil && !isCT(err) || !bytes.Equal(got, x.want) {
+			res.add(violation{"C11", fr.name, "two channels, one framing", nil, false,
+				fmt.Sprintf("channel %s transmitted %q (decodes to %q, err %v) for the record %q while the other channel of the same framing was sending", x.who, x.data, got, err, x.want)})
+			return
 		}
 	}
 }
